@@ -293,7 +293,7 @@ def build_harness(ctx, pkg):
     with open(ovp, "w") as fh:
         json.dump(ov, fh)
     binp = os.path.join(ctx.work, "c18_consensus.test")
-    cmd = ["go", "test", "-c", "-vet=off", "-tags", "verif", "-overlay", ovp, "-o", binp, "./consensus"]
+    cmd = ["go", "test", "-c", "-vet=off", "-tags", "verif c18cons", "-overlay", ovp, "-o", binp, "./consensus"]
     t0 = time.time()
     p = subprocess.run(cmd, cwd=ctx.repo, env=ctx.go_env(), stdout=subprocess.PIPE, stderr=subprocess.STDOUT)
     log("go build consensus (+store lib): rc=%d %.1fs" % (p.returncode, time.time() - t0))
